@@ -107,6 +107,7 @@ def run(chk):
         rp = {'op': 'tets', 'ids': [r.id], 'family': r.family, 'record': r.line[:6000]}
         if r.res[0] == 'PANIC':
             npanic += 1
+            chk.panic_record(r, ' '.join(r.res), rp)
             continue
         inp = parse_input(r.inp)
         tol = Tol(inp)
